@@ -183,6 +183,17 @@ End Sums.
 Lemma fold_left_ext_fn {A B} (F G : A -> B -> A) l y : (forall y t, F y t = G y t) -> fold_left F l y = fold_left G l y.
 Proof. intros E. revert y. induction l as [|t l IH]; intros y; cbn; [reflexivity|]. rewrite E. apply IH. Qed.
 
+Lemma fold_left_length_pres {A B} (F : list A -> B -> list A) l y :
+  (forall y t, length (F y t) = length y) -> length (fold_left F l y) = length y.
+Proof. intros E. revert y. induction l as [|t l IH]; intros y; cbn; [reflexivity|]. rewrite IH. apply E. Qed.
+
+Lemma fc_response_length {K} `{Num K} (f : @fconv K) (x : list K) : length (fc_response f x) = length x.
+Proof.
+  unfold fc_response. rewrite fold_left_length_pres.
+  - unfold vzero. apply repeat_length.
+  - intros y [[a b] d]. apply vaddat_length.
+Qed.
+
 (* ------------------------------------------------------------------ the convolution formula *)
 Section ConvFormula.
   Context {K : Type} `{Num K}.
@@ -684,3 +695,101 @@ Section Volume3D.
     rewrite zsum3R_scale. unfold C. rewrite zsum3_perm. apply Rmult_comm.
   Qed.
 End Volume3D.
+
+(* ------------------------------------------------------------------ flat sums and sums over the element box *)
+Section FlatSums.
+  Context {K : Type} `{Num K}.
+  Hypothesis Rth : ring_theory (@nzero K _) none_ nadd nmul nsub nopp (@eq K).
+  Add Ring KringS : Rth.
+
+  Lemma nsum_zsum (l : list K) : nsum l = zsum (Z.of_nat (length l)) (fun i => zget l i).
+  Proof.
+    induction l as [|a l IH] using rev_ind; [reflexivity|].
+    rewrite (nsum_app Rth), app_length. cbn [length].
+    replace (Z.of_nat (length l + 1)) with (Z.of_nat (length l) + 1) by lia.
+    rewrite (zsum_succ Rth) by lia. rewrite IH. f_equal.
+    - apply zsum_ext. intros i Hi. unfold zget. rewrite app_nth1 by lia. reflexivity.
+    - unfold zget. rewrite Nat2Z.id. rewrite nth_middle. cbn. ring.
+  Qed.
+
+  Lemma zsum_mul m n (g : Z -> K) : 0 <= m -> 0 <= n ->
+    zsum (m * n) g = zsum m (fun i => zsum n (fun j => g (i * n + j))).
+  Proof.
+    intros Hm Hn. pattern m. apply natlike_ind; [| |exact Hm].
+    - rewrite !zsum_nonpos by lia. reflexivity.
+    - intros k Hk IH. unfold Z.succ. rewrite (zsum_succ Rth) by exact Hk. rewrite <- IH.
+      replace ((k + 1) * n) with (k * n + n) by lia. apply (zsum_split Rth); nia.
+  Qed.
+
+  (* sum over the flat element vector = sum over the element box, via the element numbering *)
+  Lemma nsum_elem_box (g : grid) (l : list K) : wf g -> Z.of_nat (length l) = nel g ->
+    nsum l = zsum3 (nelx g) (nely g) (nz1 g) (fun a b d => zget l (elemnumber g a b d)).
+  Proof.
+    intros (Hx & Hy & Hz) Hl. rewrite nsum_zsum, Hl. unfold nel.
+    replace (nelx g * nely g * nz1 g) with ((nz1 g * nely g) * nelx g) by lia.
+    assert (Hz1 : 0 <= nz1 g) by (unfold nz1; lia).
+    rewrite zsum_mul by nia. rewrite zsum_mul by lia.
+    unfold zsum3, elemnumber. symmetry.
+    rewrite (zsum_ext (nelx g) _ (fun a => zsum (nz1 g) (fun d => zsum (nely g) (fun b =>
+               zget l ((d * nely g + b) * nelx g + a))))) by (intros; apply (zsum_swap Rth)).
+    rewrite (zsum_swap Rth (nelx g)).
+    apply zsum_ext. intros d _. apply (zsum_swap Rth).
+  Qed.
+End FlatSums.
+
+(* ------------------------------------------------------------------ volume preservation of FilterConv *)
+Definition all_sym {K} (c : padcfg K) : Prop :=
+  mx0 c = BSym /\ mx1 c = BSym /\ my0 c = BSym /\ my1 c = BSym /\ mz0 c = BSym /\ mz1 c = BSym.
+
+Lemma ext1_sym_all {K} n i : 1 <= n -> ext1 (@BSym K) BSym n i = SIdx (sym_idx n i).
+Proof.
+  intros Hn. unfold ext1. destruct (Z.ltb_spec i 0); [reflexivity|]. destruct (Z.leb_spec n i); [reflexivity|].
+  rewrite sym_idx_in by lia. reflexivity.
+Qed.
+
+Section ConvVolume.
+  Open Scope R_scope.
+  Variable f : @fconv R.
+  Let c := fc_pad f.
+  Hypothesis Hp : pads_nonneg c.
+  Hypothesis Hd : dims_ok c.
+  Hypothesis Hodd : shape3 (fc_w f) = (2 * ppx c + 1, 2 * ppy c + 1, 2 * ppz c + 1)%Z.
+  Hypothesis Hsym : all_sym c.
+  Hypothesis Hnu : fc_uov f = [].
+  Hypothesis Hmx : forall qa qb qc, (0 <= qa < 2 * ppx c + 1)%Z -> (0 <= qb < 2 * ppy c + 1)%Z -> (0 <= qc < 2 * ppz c + 1)%Z ->
+                   wget (fc_w f) (2 * ppx c - qa) qb qc = wget (fc_w f) qa qb qc.
+  Hypothesis Hmy : forall qa qb qc, (0 <= qa < 2 * ppx c + 1)%Z -> (0 <= qb < 2 * ppy c + 1)%Z -> (0 <= qc < 2 * ppz c + 1)%Z ->
+                   wget (fc_w f) qa (2 * ppy c - qb) qc = wget (fc_w f) qa qb qc.
+  Hypothesis Hmz : forall qa qb qc, (0 <= qa < 2 * ppx c + 1)%Z -> (0 <= qb < 2 * ppy c + 1)%Z -> (0 <= qc < 2 * ppz c + 1)%Z ->
+                   wget (fc_w f) qa qb (2 * ppz c - qc) = wget (fc_w f) qa qb qc.
+
+  Lemma all_sym_pad_ok : pad_ok c.
+  Proof.
+    destruct Hsym as (E1 & E2 & E3 & E4 & E5 & E6). unfold pad_ok, axis_ok.
+    rewrite E1, E2, E3, E4, E5, E6. cbn. auto.
+  Qed.
+
+  (* total volume: sum y = (sum of the kernel) * sum x, for every pad size (also beyond the domain size) *)
+  Theorem fc_volume (x : list R) :
+    Z.of_nat (length x) = nel (pg c) ->
+    nsum (fc_response f x) =
+    zsum3 (2 * ppx c + 1) (2 * ppy c + 1) (2 * ppz c + 1) (wget (fc_w f)) * nsum x.
+  Proof.
+    intros Hx. pose proof all_sym_pad_ok as Hok. pose proof (dims_wf f Hd) as Hwf. fold c in Hwf.
+    assert (Hly : Z.of_nat (length (fc_response f x)) = nel (pg c)) by (rewrite fc_response_length; exact Hx).
+    rewrite (nsum_elem_box num_ring_R (pg c) (fc_response f x) Hwf Hly).
+    rewrite (nsum_elem_box num_ring_R (pg c) x Hwf Hx).
+    pose proof (sx1_nelx f Hd) as Ex. pose proof (sy1_nely f Hd) as Ey. pose proof (sz1_nz1 f) as Ez. fold c in Ex, Ey, Ez.
+    destruct Hsym as (E1 & E2 & E3 & E4 & E5 & E6).
+    destruct Hd as (Dx & Dy & Dz).
+    rewrite <- (sym_conv_volume (nelx (pg c)) (nely (pg c)) (nz1 (pg c)) (ppx c) (ppy c) (ppz c)
+                 Dx Dy ltac:(unfold nz1; lia) (wget (fc_w f)) Hmx Hmy Hmz (fun a b d => zget x (elemnumber (pg c) a b d))).
+    apply zsum3_ext. intros a b d Ha Hb Hdd.
+    rewrite (fc_conv_formula num_ring_R f Hp ltac:(unfold dims_ok; fold c; auto) Hok Hodd) by assumption. fold c.
+    rewrite Hnu. apply zsum3_ext. intros qa qb qc Hqa Hqb Hqc.
+    cbn [apply_ovs fold_left]. change (@nmul R NumR) with Rmult. f_equal.
+    unfold ext3. rewrite E1, E2, E3, E4, E5, E6.
+    rewrite !ext1_sym_all by (unfold sx1, sy1, sz1; lia).
+    rewrite Ex, Ey, Ez. f_equal. f_equal; f_equal; lia.
+  Qed.
+End ConvVolume.
